@@ -17,6 +17,8 @@ import (
 var DebugSched bool
 
 type entity struct {
+	kind     string // API operation the goroutine is executing (read-range oracle)
+	wv       bool
 	name     string
 	children int
 	weight   float64
@@ -115,7 +117,7 @@ func (s *Sched) Yield(site string) {
 		if parent != nil {
 			pname = parent.name
 			parent.children++
-			ent = &entity{name: fmt.Sprintf("%s.g%d", pname, parent.children), weight: parent.weight}
+			ent = &entity{name: fmt.Sprintf("%s.g%d", pname, parent.children), weight: parent.weight, kind: parent.kind, wv: parent.wv}
 		} else {
 			ent = &entity{name: "orphan", weight: 1}
 		}
@@ -216,4 +218,28 @@ func (s *Sched) Run() {
 		s.mu.Unlock()
 		close(w.ch)
 	}
+}
+
+// SetOp records which API operation the calling goroutine is executing.
+func (s *Sched) SetOp(kind string, wv bool) {
+	s.mu.Lock()
+	if ent := s.ents[goid()]; ent != nil {
+		ent.kind, ent.wv = kind, wv
+	}
+	s.mu.Unlock()
+}
+
+// OpOf returns the operation of the calling goroutine; a goroutine not
+// yet known (an iterator producer before its first park) works on behalf
+// of the entity released last.
+func (s *Sched) OpOf() (string, bool) {
+	s.mu.Lock()
+	defer s.mu.Unlock()
+	if ent := s.ents[goid()]; ent != nil {
+		return ent.kind, ent.wv
+	}
+	if s.cur != nil {
+		return s.cur.kind, s.cur.wv
+	}
+	return "", false
 }
